@@ -1654,12 +1654,21 @@ def wtdmig(f, dct):
                     if num != 0.0:
                         gi, ci = rowids[row]
                         if mtype < 3:  # real
-                            num_str = f"{num:16.9E}"
+                            num_str = _dmig_field(num)
                         else:  # complex
-                            num_str = f"{num.real:16.9E}{num.imag:16.9E}"
+                            num_str = _dmig_field(num.real) + _dmig_field(num.imag)
                         if mtype & 1 == 0:  # if even
                             num_str = num_str.replace("E", "D")
                         f.write(f"{'*':<8s}{gi:16d}{ci:16d}{num_str:s}\n")
+
+
+def _dmig_field(num):
+    """16 character field for a DMIG value"""
+    s = f"{num:16.9E}"
+    if len(s) > 16:
+        # negative value with a three digit exponent
+        s = f"{num:16.8E}"
+    return s
 
 
 def rdgrids(f, *, follow_includes=True, include_symbols=None):
